@@ -195,6 +195,37 @@ def run(chk):
     chk.bounded('qualifiers differing in one parameter, in every qualifier position', list(qual_cases()), check_qual, classify=lambda c: (c[0], c[1], c[2]),
                 bound=f'{len(QUALS)} qualifiers (2 spans, 2 counts, 5 windows differing in start / stop / both), all pairs x {len(QCTX)} positions; meaning compared on {len(qseqs)} timed observation sequences')
 
+    # ---- tempting rewrites that are NOT valid: each pair differs in meaning (a witness sequence is found by the evaluator first), so it must not be reported equivalent
+    c0 = ('OBS', ('CMP', PA, '=', False, ('num', 2)))
+    R2, W5 = ('REPEATS', 2), ('WITHIN', 5.0)
+    TEMPTING = [
+        ('REPEATS does not distribute over OR', ('QUAL', ('PAREN', ('OOR', (a0, b0))), R2), ('OOR', (('QUAL', a0, R2), ('QUAL', b0, R2)))),
+        ('REPEATS does not distribute over OR (same path)', ('QUAL', ('PAREN', ('OOR', (a0, c0))), R2), ('OOR', (('QUAL', a0, R2), ('QUAL', c0, R2)))),
+        ('REPEATS does not distribute over AND', ('QUAL', ('PAREN', ('OAND', (a0, b0))), R2), ('OAND', (('QUAL', a0, R2), ('QUAL', b0, R2)))),
+        ('REPEATS over OR, under FOLLOWEDBY', ('FBY', (b0, ('QUAL', ('PAREN', ('OOR', (a0, c0))), R2))), ('FBY', (b0, ('PAREN', ('OOR', (('QUAL', a0, R2), ('QUAL', c0, R2))))))),
+        ('FOLLOWEDBY is not commutative', ('FBY', (a0, b0)), ('FBY', (b0, a0))),
+        ('WITHIN does not distribute over FOLLOWEDBY', ('QUAL', ('PAREN', ('FBY', (a0, b0))), W5), ('FBY', (('QUAL', a0, W5), ('QUAL', b0, W5)))),
+        ('WITHIN does not distribute over AND', ('QUAL', ('PAREN', ('OAND', (a0, b0))), W5), ('OAND', (('QUAL', a0, W5), ('QUAL', b0, W5)))),
+        ('comparison AND is not observation AND', ('OBS', ('CAND', (a0[1], b0[1]))), ('OAND', (a0, b0))),
+        ('REPEATS 2 is not REPEATS 3 of the same thing', ('QUAL', a0, R2), ('QUAL', a0, ('REPEATS', 3))),
+        ('REPEATS of REPEATS multiplies', ('QUAL', ('QUAL', a0, R2), R2), ('QUAL', a0, R2)),
+        ('AND does not absorb OR alternatives', ('OAND', (a0, ('PAREN', ('OOR', (b0, c0))))), ('OAND', (a0, b0))),
+        ('FOLLOWEDBY does not distribute inward over AND', ('FBY', (a0, ('PAREN', ('OAND', (b0, c0))))), ('OAND', (('PAREN', ('FBY', (a0, b0))), c0))),
+    ]
+    qobs3 = qobs + [{PA: 2}, {PA: 2, PC: 2}]
+    tseqs = qseqs + [[(t1_, o1), (t2_, o2)] for t1_, t2_ in ((0, 1), (1, 0), (0, 10)) for o1 in qobs3[1:] for o2 in qobs3[1:]] + \
+            [[(0, o1), (1, o2), (2, o3)] for o1 in qobs3[1:] for o2 in qobs3[1:] for o3 in qobs3[1:]] + [[(0, o1), (1, o1), (2, o2), (3, o2)] for o1 in qobs3[1:] for o2 in qobs3[1:]]
+
+    def check_tempting(case):
+        name, t1, t2 = case
+        a, b = show(t1), show(t2); r1, r2 = read(a), read(b)
+        w = next((sq for sq in tseqs if matches(r1, sq) != matches(r2, sq)), None)
+        if w is None: return None                     # (no difference on this universe: nothing to demand)
+        try: e = equivalent_patterns(a, b)
+        except Exception as ex: return (f'total#never fails:{type(ex).__name__}', f'equivalent_patterns({a!r}, {b!r}) raised {ex!r}', {})
+        if e: return (f'sound#reported equivalent but semantics differ:{name}', f'{a} ~ {b} reported equivalent ({name}), but only one of them matches the observation sequence {w}', {'p': a, 'q': b})
+    chk.bounded('tempting but invalid rewrites are not taken', TEMPTING, check_tempting, classify=lambda c: c[0], bound=f'{len(TEMPTING)} pairs (qualifier distribution, commutation of FOLLOWEDBY, comparison vs observation AND, absorption); witness searched on {len(tseqs)} timed sequences')
+
     # ---- special-value canonicalisation (documented rewrites of the normaliser): CIDR networks and registry-key case, against integer arithmetic
     from stix2.equivalence.pattern.transform.specials import _mask_bytes
     def mask_cases():
